@@ -22,6 +22,8 @@ struct Fn : TrackedBase<TC_CALLBACK> {
 };
 struct CondArgs { int id; bool operator()(int v) const { return g_h->onCond(id, v, true); } };
 struct CondNoArgs { int id; bool operator()() const { return g_h->onCond(id, 0, false); } };
+// callable both ways: the remover has to pass the trigger's arguments ("with the trigger's arguments if it accepts them")
+struct CondBoth { int id; bool operator()(int v) const { return g_h->onCond(id, v, true); } bool operator()() const { return g_h->onCond(id, -12345, true); } };
 
 template <typename Th> struct P { using Threading = Th; };
 typedef eventpp::HeterTuple<void(int), void(const std::string &)> HT;
@@ -85,7 +87,7 @@ struct Harness : HB {
 	typedef typename A::T T; typedef typename A::Handle Handle;
 	Cfg cfg; Ctx & ctx; T * t = nullptr;
 	enum Kind { PLAIN, COUNTER, COND };
-	struct Entry { int kind; int remaining; unsigned bits; int evals; bool withArgs; bool attached; };
+	struct Entry { int kind; int remaining; unsigned bits; int evals; int withArgs; bool attached; };
 	std::vector<Entry> ent;            // by id
 	std::vector<Handle> handleOf;
 	std::vector<int> order;            // attached ids in list order
@@ -119,12 +121,12 @@ struct Harness : HB {
 		handleOf[id] = A::addCounter(*t, Fn(id), n, pos, bh);
 		place(id, pos, beforeId);
 	}
-	void addCond(int pattern, bool withArgs, int pos) {
+	void addCond(int pattern, int withArgs, int pos) {   // withArgs: 0 = condition(), 1 = condition(int), 2 = callable both ways
 		static const unsigned bitsOf[] = {0x1, 0x2, 0x4, 0x0};
 		int id = newEntry(COND); ent[id].bits = bitsOf[pattern]; ent[id].withArgs = withArgs;
 		int beforeId; Handle bh = beforeHandle(pos, beforeId);
-		ctx.log(fmt("ConditionalRemover add (condition true at evaluation %s, %s arguments, %s) -> #%d", pattern == 3 ? "never" : fmt("%d", pattern + 1).c_str(), withArgs ? "takes" : "no", pos == 0 ? "append" : pos == 1 ? "prepend" : "insert before slot0", id));
-		if(withArgs) handleOf[id] = A::addCond(*t, Fn(id), CondArgs{id}, pos, bh); else handleOf[id] = A::addCond(*t, Fn(id), CondNoArgs{id}, pos, bh);
+		ctx.log(fmt("ConditionalRemover add (condition true at evaluation %s, %s arguments, %s) -> #%d", pattern == 3 ? "never" : fmt("%d", pattern + 1).c_str(), withArgs == 2 ? "takes or omits" : withArgs ? "takes" : "no", pos == 0 ? "append" : pos == 1 ? "prepend" : "insert before slot0", id));
+		if(withArgs == 2) handleOf[id] = A::addCond(*t, Fn(id), CondBoth{id}, pos, bh); else if(withArgs) handleOf[id] = A::addCond(*t, Fn(id), CondArgs{id}, pos, bh); else handleOf[id] = A::addCond(*t, Fn(id), CondNoArgs{id}, pos, bh);
 		place(id, pos, beforeId);
 	}
 	void doRemove(int id, const char * who) {
@@ -198,11 +200,12 @@ struct Harness : HB {
 		}
 	}
 
-	int menu() const { return 1 + 18 + 16 + 3 + 1; }
+	int menu() const { return 1 + 18 + 16 + 4 + 3 + 1; }
 	void topOp(Bfs & b, int op) {
 		if(op < 1) { if((int)order.size() >= cfg.K) b.skip(); addPlain(); return; } op -= 1;
 		if(op < 18) { if((int)order.size() >= cfg.K || wrapped() >= cfg.maxWrapped) b.skip(); static const int ns[] = {1, 2, 3, 0, -1, -2}; addCounter(ns[op / 3], op % 3); return; } op -= 18;
 		if(op < 16) { if((int)order.size() >= cfg.K || wrapped() >= cfg.maxWrapped) b.skip(); int pos = op % 2; addCond(op / 4, (op / 2) % 2, pos); return; } op -= 16;
+		if(op < 4) { if((int)order.size() >= cfg.K || wrapped() >= cfg.maxWrapped) b.skip(); addCond(op, 2, 0); return; } op -= 4;
 		if(op < 3) { if(slot[op] < 0) b.skip(); doRemove(slot[op], ""); return; } op -= 3;
 		doTrigger(false);
 	}
